@@ -3,20 +3,57 @@
 // Contracts for govc (comment-only file; see /verif/DESIGN.md section 3).
 package hash
 
+// A value may be fed to the transcript hash without panicking if it is a non-nil interface holding
+// a non-nil object, or a (possibly nil) pointer of one of the types whose WriteTo tolerates nil.
+//@ spec fn nilok_type(Int) Bool
+//@ pred hashable(d interface{}) := d != nil && (refof(d) != 0 || !isptrtype(dyntype(d)) || nilok_type(dyntype(d)))
+
+//@ interface WriterToWithDomain method Domain
+//@   modifies nothing
+
 //@ func New
-//@   modifies shared
-//@   ensures result != nil
+//@   nopanic[C05]
+//@   requires each(initialData, d, hashable(d))
+//@   modifies nothing
+//@   allocates
+//@   ensures result != nil && result.h != nil
 
 //@ func (*Hash).WriteAny
-//@   requires hash != nil
-//@   modifies shared
+//@   nopanic[C05]
+//@   requires hash != nil && hash.h != nil
+//@   requires each(data, d, hashable(d))
+//@   modifies nothing
+//@   allocates
+
+//@ func (*Hash).Digest
+//@   nopanic[C05]
+//@   requires hash != nil && hash.h != nil
+//@   modifies nothing
+//@   allocates
+//@   ensures result != nil
 
 //@ func (*Hash).Sum
-//@   requires hash != nil
-//@   modifies shared
+//@   nopanic[C05]
+//@   requires hash != nil && hash.h != nil
+//@   panic_unreachable_under_requires
+//@   modifies nothing
+//@   allocates
 //@   ensures result != nil && len(result) == 64
 
 //@ func (*Hash).Clone
-//@   requires hash != nil
-//@   modifies shared
-//@   ensures result != nil
+//@   nopanic[C05]
+//@   requires hash != nil && hash.h != nil
+//@   modifies nothing
+//@   allocates
+//@   ensures result != nil && result.h != nil
+
+//@ func (*Hash).Fork
+//@   nopanic[C05]
+//@   requires hash != nil && hash.h != nil
+//@   requires each(data, d, hashable(d))
+//@   modifies nothing
+//@   allocates
+//@   ensures result != nil && result.h != nil
+
+// WriteTo of these pointer types tolerates a nil receiver (checked by their own contracts).
+//@ axiom nilok_type(typeid(*pedersen.Parameters)) && nilok_type(typeid(*paillier.PublicKey)) && nilok_type(typeid(*paillier.Ciphertext))
